@@ -1141,8 +1141,6 @@ Proof.
   - exfalso. match goal with H : iter_gate _ _ _ |- _ => apply H; apply pol_all end.
   - exfalso. match goal with H : iter_gate _ _ _ |- _ => apply H; apply pol_all end.
   - exfalso. match goal with H : iter_gate _ _ _ |- _ => apply H; apply pol_all end.
-  - exfalso. match goal with H : iter_gate _ _ _ |- _ => apply H; apply pol_all end.
-  - exfalso. match goal with H : iter_gate _ _ _ |- _ => apply H; apply pol_all end.
 Qed.
 
 Lemma rline_S n : rec_at n -> rline_at n -> rec_at (S n) -> rline_at (S n).
@@ -1184,9 +1182,8 @@ Qed.
 
 (* [recreate_body] preserves typing (with narrowing): every typed closure literal satisfies
    the property the closure-creation rules need *)
-Theorem recreate_ok_all powf pre : @policy_ok all_policy powf pre.
+Theorem recreate_ok_all powf : @policy_ok all_policy powf.
 Proof.
-  split; [|intros W0 G i Hg; exfalso; apply Hg; exact I].
   intros W0 G nm ps body r G' Ts _ Wf Hnm Hb Hend W sc HE HG.
   destruct (wf_fun_parts _ _ Wf) as [Wps _].
   assert (HR : renv W sc [fn_layer nm ps r] (closure_env nm ps r ++ G) (closure_env nm ps r)).
@@ -1214,4 +1211,3 @@ Proof.
   - destruct C.
   - split; [discriminate|]. split; [intros y Hy; discriminate Hy|]. intros b Hb'. discriminate Hb'.
 Qed.
-Arguments recreate_ok_all powf {pre}.
